@@ -23,7 +23,10 @@ RULE = (
     'documented effect of every switched-on preference (comments / empty rules / unknown rules / unused namespace rules '
     'dropped, effective-only / valid-only properties, href form, variable resolution); numbers and hashes compare by '
     'value; assignments touching only layout preferences keep the non-white-space token sequence of the default output; '
-    'useDefaults() restores the default output byte for byte. Non-trivial: >= 2 non-default preferences and the DOM holds '
+    'useDefaults() restores the default output byte for byte - of every rule serialised on its own first (rule.cssText is a string '
+    'under every assignment), then of the sheet. special: indentSpecificities / lineNumbers with other preferences over the same DOMs '
+    'plus ladders of selectors of growing specificity (a, a.x, a.x#y, ..., optionally inside @media): no exception, layout only, '
+    'defaults restore for parts and sheet. Non-trivial: >= 2 non-default preferences and the DOM holds '
     'an item at least one of them affects; distinct by (preferences, DOM).'
 )
 ASSUMPTIONS = [
@@ -296,6 +299,15 @@ def check(case, ctx):
         try:
             d = cssutils.CSSParser(fetcher=fetcher).parseString(text, href='http://example.com/s.css')
             default_out = d.cssText
+            default_nodes = []
+
+            def collect0(rules):
+                for r in rules:
+                    default_nodes.append(r.cssText)
+                    if hasattr(r, 'cssRules') and r.type != r.IMPORT_RULE:
+                        collect0(r.cssRules)
+
+            collect0(d.cssRules)
             eff = effective_prefs(prefs)
             used = set()
             for r in walk_style_rules(d.cssRules):
@@ -319,6 +331,14 @@ def check(case, ctx):
             raise Violation('crash:serialise:' + frame_sig(e), f'prefs {prefs}: {text[:300]!r}: {e!r}')
         finally:
             cssutils.ser.prefs.useDefaults()
+        # parts first: serialising the whole sheet may reset what a part would still see
+        try:
+            again = [r.cssText for r, _ in nodes]
+        except Exception as e:  # noqa: BLE001
+            raise Violation('crash:serialise-after-restore:' + frame_sig(e), f'prefs {prefs}: {text[:300]!r}: {e!r}')
+        if again != default_nodes:
+            i = next(i for i, (x, y) in enumerate(zip(again, default_nodes)) if x != y)
+            raise Violation('defaults:not-restored:rule-text', f'prefs {prefs}: {type(nodes[i][0]).__name__}.cssText {again[i]!r}, before {default_nodes[i]!r}')
         if d.cssText != default_out:
             raise Violation('defaults:not-restored', f'prefs {prefs}: {text[:200]!r}')
         for r, t in nodes:
@@ -417,42 +437,80 @@ def check_vars(case, ctx):
 
 # --------------------------------------------------------------------------- special preferences: no exception, defaults restore
 
+LADDER = ['a', 'a.x', 'a.x#y', 'a:hover', 'a.x:hover', 'b', 'b.k', 'b#i.k', 'div a', 'p > a.x', 'a, b', 'a.x, b.k']
 special_strategy = st.fixed_dictionaries({'model': A.sheet(max_body=3), 'seed': st.integers(0, 2 ** 30),
-                                          'indentSpecificities': st.booleans(), 'lineNumbers': st.booleans(), 'other': prefs_strategy()})
+                                          'indentSpecificities': st.booleans(), 'lineNumbers': st.booleans(), 'other': prefs_strategy(),
+                                          'ladder': st.lists(st.sampled_from(LADDER), max_size=5), 'ladder_in_media': st.booleans(),
+                                          'parts_under_prefs': st.booleans()})
+
+
+def _all_rules(rules, out):
+    for r in rules:
+        out.append(r)
+        if hasattr(r, 'cssRules') and r.type != r.IMPORT_RULE:
+            _all_rules(r.cssRules, out)
+    return out
 
 
 def check_special(case, ctx):
     saved_mode = cssutils.log.raiseExceptions
     cssutils.log.raiseExceptions = False
     cssutils.ser.prefs.useDefaults()
+    what = f'{case["other"]} indentSpecificities={case["indentSpecificities"]} lineNumbers={case["lineNumbers"]}'
     try:
         flatten_nested_comments(case['model']['stmts'])
-        d = cssutils.CSSParser(fetcher=fetcher).parseString(A.render_sheet(case['model'], case['seed']))
+        text = A.render_sheet(case['model'], case['seed'])
+        ladder = '\n'.join('%s { top: %d }' % (sel, i) for i, sel in enumerate(case.get('ladder') or []))
+        if ladder and case.get('ladder_in_media'):
+            ladder = '@media print {\n%s\n}' % ladder
+        d = cssutils.CSSParser(fetcher=fetcher).parseString(text + '\n' + ladder)
+        rules = _all_rules(d.cssRules, [])
+        default_parts = [r.cssText for r in rules]
         default_out = d.cssText
         try:
             apply_prefs(case['other'])
             cssutils.ser.prefs.indentSpecificities = case['indentSpecificities']
             cssutils.ser.prefs.lineNumbers = case['lineNumbers']
-            d.cssText
-            for r in d.cssRules:
-                r.cssText
+            out = d.cssText
+            if case.get('parts_under_prefs', True):
+                for r in rules:
+                    if not isinstance(r.cssText, str):
+                        raise Violation('output:rule-text-not-a-string', f'{what}: {type(r).__name__}')
+        except Violation:
+            raise
         except Exception as e:  # noqa: BLE001
-            raise Violation('crash:serialise-special:' + frame_sig(e), f'{case["other"]} indentSpecificities={case["indentSpecificities"]} lineNumbers={case["lineNumbers"]}: {e!r}')
+            raise Violation('crash:serialise-special:' + frame_sig(e), f'{what}: {e!r}')
         finally:
             cssutils.ser.prefs.useDefaults()
+        # the special preferences are layout only
+        if not case['other'] and not case['lineNumbers']:
+            ta, tb = nonspace_tokens(out.decode(d.encoding)), nonspace_tokens(default_out.decode(d.encoding))
+            if ta != tb:
+                raise Violation('layout:changes-tokens', f'{what}: {out[:300]!r} vs {default_out[:300]!r}')
+        # parts first: serialising the whole sheet may reset what a part would still see
+        try:
+            parts = [r.cssText for r in rules]
+        except Exception as e:  # noqa: BLE001
+            raise Violation('crash:serialise-after-restore:' + frame_sig(e), f'{what}: {e!r}')
+        if parts != default_parts:
+            i = next(i for i, (x, y) in enumerate(zip(parts, default_parts)) if x != y)
+            raise Violation('defaults:not-restored:rule-text', f'{what}: {type(rules[i]).__name__}.cssText {parts[i]!r}, before {default_parts[i]!r}')
         again = d.cssText
         if again != default_out:
             i = next((i for i, (x, y) in enumerate(zip(again, default_out)) if x != y), min(len(again), len(default_out)))
-            raise Violation('defaults:not-restored', f'{case["other"]} indentSpecificities={case["indentSpecificities"]} lineNumbers={case["lineNumbers"]}: '
+            raise Violation('defaults:not-restored', f'{what}: '
                             f'at byte {i}: {again[max(0, i - 40):i + 40]!r} vs {default_out[max(0, i - 40):i + 40]!r}; serializer level {cssutils.ser._level}')
     finally:
         cssutils.ser.prefs.useDefaults()
         cssutils.log.raiseExceptions = saved_mode
-    ctx.case([case['seed'], case['indentSpecificities'], case['lineNumbers']], case['indentSpecificities'] or case['lineNumbers'], None)
+    if case['indentSpecificities'] and out != default_out:
+        ctx.event('indentSpecificities-changed-output')
+    ctx.case([text, ladder, case['indentSpecificities'], case['lineNumbers'], sorted(map(str, case['other'].items()))], case['indentSpecificities'] or case['lineNumbers'],
+             {'css': (text + ladder)[:300], 'indentSpecificities': case['indentSpecificities'], 'lineNumbers': case['lineNumbers'], 'output': out.decode(d.encoding, 'replace')[:300]})
 
 
 SUBS = [
     Sub('prefs', check, strategy=case_strategy, quick=2500, thorough=150000, shards_quick=8, budget_quick=120),
     Sub('variables', check_vars, strategy=var_strategy, quick=600, thorough=30000, shards_quick=2),
-    Sub('special', check_special, strategy=special_strategy, quick=400, thorough=20000, shards_quick=4),
+    Sub('special', check_special, strategy=special_strategy, quick=800, thorough=20000, shards_quick=4),
 ]
